@@ -131,11 +131,16 @@ Definition edge_on_change (p : nid) (e : nat) : M unit :=
     | Some v => user_call ;;; emit (EvEdgeCb p e v) ;;; upd_edge e (fun ed => ed <| ed_seen := Some v |>)
     end
   | CbPerKey pk key =>
-    (* on_inner_change (btree_map.rs:157): acc.insert(key, value) *)
+    (* on_inner_change (btree_map.rs:157): O::as_opt(value): None => acc.remove(key), Some(x) => acc.insert(key, x).
+       For the filter flavour the harness' per-key function returns None as () *)
     v <- value_of (ed_child ed) ;;
     match v with
     | None => ret tt
-    | Some v => upd_perkey pk (fun r => r <| pk_acc := zm_set key (as_int v) (pk_acc r) |>)
+    | Some v =>
+        r <- get_perkey pk ;;
+        if pk_filter r && (match v with VUnit => true | _ => false end)
+        then upd_perkey pk (fun r => r <| pk_acc := zm_del key (pk_acc r) |>)
+        else upd_perkey pk (fun r => r <| pk_acc := zm_set key (as_int v) (pk_acc r) |>)
     end
   end.
 
@@ -1197,6 +1202,8 @@ Definition perkey_visit (fuel : nat) (pk : nat) (kd : Z * dkind) : M unit :=
         match mapped with
         | None => panic (PModelGap 61)
         | Some mapped =>
+            (* filter flavour: the harness' function ends with `.map(|v| keep(v).then(|| v.clone()))` *)
+            mapped <- (if pk_filter r then create_node (KMap (Clo 11 0 [] true) [mapped]) else ret mapped) ;;
             upgrade_unwrap (pk_result r) 506 ;;;
             dep <- expert_add_dependency fuel (pk_result r) mapped (CbPerKey pk key) ;;
             upd_perkey pk (fun r => r <| pk_nodes := (key, (node, dep)) :: pk_nodes r |>)
